@@ -356,6 +356,10 @@ def addressed(slicer):
     if ov is not None and ov[2] is slicer:
         M.count('addr.subslice_by_numpy_grid')
         return list(ov[0]), tuple(ov[1])
+    ann = getattr(slicer, '__dict__', {}).get('_pv_addr')
+    if ann is not None:
+        M.count('addr.subslice_by_annotation')
+        return list(ann[0]), tuple(ann[1])
     if not hasattr(slicer, 'items'):
         try:
             idx, shape = R.ref_address(list(plate.row_names), list(plate.column_names), slicer.item)
